@@ -7,6 +7,7 @@ Section LoopProofs.
   Variable state : Type.
   Variable pass : state -> list usym -> state * list usym * list diag.
   Variable nodes_added : state -> state -> bool.
+  Variable nothing_changed : state -> bool.
   Variable no_segments : state -> bool.
   Variable create_default_segment : state -> state.
   Variable next_pass : state -> state.
@@ -14,7 +15,7 @@ Section LoopProofs.
   Variable sort_undefined : list usym -> list usym.
   Hypothesis sort_perm : forall l, Permutation (sort_undefined l) l.
 
-  Let loop := loop state pass nodes_added no_segments create_default_segment next_pass finalize sort_undefined.
+  Let loop := loop state pass nodes_added nothing_changed no_segments create_default_segment next_pass finalize sort_undefined.
 
   Lemma is_nil_true : forall {A} (l : list A), is_nil l = true -> l = [].
   Proof. intros A [|x r] H; [reflexivity|discriminate]. Qed.
@@ -22,7 +23,8 @@ Section LoopProofs.
   (* the loop's only successful exit: the last pass raised no error, left nothing undefined, added no symbol *)
   Theorem done_means_clean : forall fuel c u pu pe c' fe,
     loop fuel c u pu pe = Done state c' fe ->
-    exists c0 u0, pass c0 u0 = (c', [], []) /\ nodes_added c0 c' = false /\ no_segments c' = false /\ fe = finalize c'.
+    exists c0 u0, pass c0 u0 = (c', [], []) /\ nodes_added c0 c' = false /\ nothing_changed c' = true /\
+                  no_segments c' = false /\ fe = finalize c'.
   Proof.
     induction fuel as [|f IH]; intros c u pu pe c' fe H; cbn [loop PassLoopErr.loop] in H; [discriminate|].
     unfold loop in *. cbn [PassLoopErr.loop] in H.
@@ -31,8 +33,8 @@ Section LoopProofs.
     destruct (no_segments c1) eqn:Es; [eapply IH; exact H|].
     destruct (negb (is_nil errors) && diags_eqb errors pe); [discriminate|].
     destruct (is_nil errors) eqn:Ee; [|eapply IH; exact H].
-    destruct (is_nil undef1 && negb (nodes_added c c1)) eqn:Ed.
-    - inversion H; subst. apply andb_true_iff in Ed. destruct Ed as [Eu En].
+    destruct (is_nil undef1 && nothing_changed c1 && negb (nodes_added c c1)) eqn:Ed.
+    - inversion H; subst. apply andb_true_iff in Ed. destruct Ed as [Ed En]. apply andb_true_iff in Ed. destruct Ed as [Eu Ec].
       apply is_nil_true in Ee. apply is_nil_true in Eu. subst. apply negb_true_iff in En.
       exists c, u. repeat split; assumption.
     - destruct (negb (is_nil undef1) && uset_eqb undef1 pu); [discriminate|eapply IH; exact H].
@@ -50,7 +52,7 @@ Section LoopProofs.
       destruct (negb (is_nil errors) && diags_eqb errors pe) eqn:Eb.
       + inversion H; subst. apply andb_true_iff in Eb. destruct Eb as [Eb _]. destruct ds; [discriminate|discriminate].
       + destruct (is_nil errors); [|eapply IH; exact H].
-        destruct (is_nil undef1 && negb (nodes_added c c1)); [discriminate|].
+        destruct (is_nil undef1 && nothing_changed c1 && negb (nodes_added c c1)); [discriminate|].
         destruct (negb (is_nil undef1) && uset_eqb undef1 pu) eqn:Et; [|eapply IH; exact H].
         inversion H; subst. apply andb_true_iff in Et. destruct Et as [Et _].
         destruct undef1 as [|x r]; [discriminate|].
